@@ -38,7 +38,8 @@ RecordVerdict(e) ==
       K   == Keep(obs, p, th)
       ord == <<ref>> \o e.alt
       mf(b) == MeanFreq(obs, p, b)
-  IN  IF Ambiguous(obs, p, th) THEN "ok"
+  IN  IF ~RefUsable(ref) THEN (IF e.ref = ref THEN "ok" ELSE "RefFirst")   \* N / IUPAC reference: only REF is decided
+      ELSE IF Ambiguous(obs, p, th) THEN "ok"
       ELSE IF ~Emitted(obs, p, th) THEN "EmitIffTwo"
       ELSE IF e.ref # ref THEN "RefFirst"
       ELSE IF e.masked # MaskedR(obs, p, th, ref) THEN "RefMasked"
@@ -62,7 +63,7 @@ Verdict(e) ==
                               THEN "FilterOptionIgnored"      \* the depths of some OTHER read-filter configuration
                               ELSE "DepthIsFilteredPileup"
     [] e.op = "record" -> RecordVerdict(e)
-    [] e.op = "norecord" -> IF Ambiguous(obs, e.p, ctx.th) \/ ~Emitted(obs, e.p, ctx.th) THEN "ok" ELSE "EmitIffTwo"
+    [] e.op = "norecord" -> IF ~RefUsable(ctx.ref[e.p]) \/ Ambiguous(obs, e.p, ctx.th) \/ ~Emitted(obs, e.p, ctx.th) THEN "ok" ELSE "EmitIffTwo"
     [] OTHER -> "UnknownEvent"
 
 TInit == /\ l = 1 /\ bad = 0 /\ hist = <<>> /\ last = 0 /\ depth = <<>>
